@@ -7,3 +7,7 @@ import (
 func typesPointer(t types.Type) types.Type { return types.NewPointer(t) }
 
 func universeError() types.Type { return types.Universe.Lookup("error").Type() }
+
+// errTypeForGlobals: dynamic type given to engine error objects that stand
+// for package-level error variables of dependencies (set at load time).
+var errTypeForGlobals types.Type
